@@ -30,8 +30,19 @@ method re-creates both detectors -/
 theorem reset_transcribed :
     (["complete", "infer", "goto", "help", "get_references", "get_signatures", "_names"].all
       (Gen.C16.resetFirst.contains ·)) = true ∧
-    (["self.execution_recursion_detector", "self.recursion_detector"].all
+    (["self.execution_recursion_detector", "self.inferred_element_counts", "self.recursion_detector"].all
       (Gen.C16.resetAssigns.contains ·)) = true := by decide
+
+/-- every public query method of `Script` - those taking a position, and `search` /
+`complete_search` / `get_names` - opens with `reset_recursion_limitations()` or reaches a method
+that does through `self` before it infers. The position methods that do not: `get_context` (it
+infers nothing: it walks the syntax tree and creates a context) and the two refactorings
+`extract_function` / `extract_variable` (they return a `Refactoring`, not a list of definitions) -/
+theorem public_queries_reset :
+    (Gen.C16.positionQueries.filter (fun m => !Gen.C16.resetReach.contains m)) =
+      ["extract_function", "extract_variable", "get_context"] ∧
+    (["complete", "infer", "goto", "help", "get_references", "get_signatures", "rename", "inline",
+      "search", "complete_search", "get_names"].all (Gen.C16.resetReach.contains ·)) = true := by decide
 
 /-- the configuration of the source: the cap, `MAX_PARAM_SEARCHES`, and the `+= 1` / `-= 1` of
 `_avoid_recursions` where they stand -/
@@ -320,6 +331,59 @@ theorem query_boundary_counts_reset (resets : List String)
     (reset resets s).counts = Counts.empty := by
   unfold reset
   simp only [h, if_true]
+
+/-! ## the execution budget is a budget per query -/
+
+/-- the limits of `jedi/inference/recursion.py` -/
+def srcLimits : Limits :=
+  { recursionLimit := Gen.C16.recursionLimit, totalLimit := Gen.C16.totalLimit,
+    perFnLimit := Gen.C16.perFnLimit, perFnRecLimit := Gen.C16.perFnRecLimit }
+
+/-- `every_query_starts_with_fresh_budget`: whatever queries were asked before on the Script
+(any methods, any traces - also ones that used up every budget), a query through a method that
+resets gets the decisions (`limit_reached` of every execution) it gets as the first query of a
+fresh Script. For arbitrary limits and reset lists ... -/
+theorem every_query_starts_with_fresh_budget (L : Limits) (resetFirst : List String)
+    (hist : List (String × List Op)) (d : Det) (q : String × List Op)
+    (h : resetFirst.contains q.1 = true) :
+    (apiQuery L resetFirst (apiSession L resetFirst d hist).1 q).2 =
+      (apiQuery L resetFirst Det.fresh q).2 := by
+  unfold apiQuery
+  rw [if_pos h, if_pos h]
+
+/-- ... and for the methods and limits of the source: every public query method that can execute a
+function (`public_queries_reset`) -/
+theorem public_queries_have_fresh_budget (hist : List (String × List Op)) (ops : List Op) (m : String)
+    (hm : m ∈ ["complete", "infer", "goto", "help", "get_references", "get_signatures", "rename", "inline",
+      "search", "complete_search", "get_names"]) :
+    (apiQuery srcLimits Gen.C16.resetReach (apiSession srcLimits Gen.C16.resetReach Det.fresh hist).1 (m, ops)).2 =
+      (runTrace srcLimits Det.fresh ops).2 := by
+  have h : Gen.C16.resetReach.contains m = true := by
+    have hall := public_queries_reset.2
+    rw [List.all_eq_true] at hall
+    exact hall m hm
+  rw [every_query_starts_with_fresh_budget srcLimits Gen.C16.resetReach hist Det.fresh (m, ops) h]
+  simp [apiQuery, h]
+
+/-- the hypothesis is needed (kernel-checked witness, the limits of the source): if `get_signatures`
+did not reset, then after an `infer` that executed one function exactly `per_function_execution_limit`
+times, the single execution `get_signatures` needs is refused - and admitted when it is the first
+query, or when the list is the one of the source. (Seeded defect C16-3; found on the real code by
+stream budget.) -/
+theorem budget_leaks_without_reset :
+    let g : Exec := ⟨7, false, false⟩
+    let heavy : String × List Op := ("infer", (List.replicate Gen.C16.perFnLimit [Op.push g, Op.pop]).flatten)
+    let ask : String × List Op := ("get_signatures", [Op.push g, Op.pop])
+    let without := Gen.C16.resetReach.filter (· != "get_signatures")
+    (apiSession srcLimits without Det.fresh [heavy, ask]).2.map refusals =
+      [List.replicate Gen.C16.perFnLimit false, [true]] ∧
+    (apiSession srcLimits without Det.fresh [ask]).2.map refusals = [[false]] ∧
+    (apiSession srcLimits Gen.C16.resetReach Det.fresh [heavy, ask]).2.map refusals =
+      [List.replicate Gen.C16.perFnLimit false, [false]] := by
+  decide
+
+example : ("get_signatures" ∈ ["complete", "infer", "goto", "help", "get_references", "get_signatures", "rename",
+    "inline", "search", "complete_search", "get_names"]) := by decide
 
 /-! ## the memo layer -/
 
